@@ -1,8 +1,431 @@
+/-
+  C06 — Routers deliver each packet once to exactly the addressed stations.
+
+  Property text → formal statement  (model: BacVerif/Model/Route.lean, which describes the
+  tree after fixes/C06-no-echo-via-cache.patch)
+
+  * "Each router hop lowers the hop count by one"             → `hop_decrement`
+  * "nothing is forwarded back onto the network it came from" → `no_echo`
+  * "or once the count is exhausted"                          → `hop_exhausted`
+  * "a local broadcast stays on its network"                  → `local_stays_local`
+                                                                (+ `station_never_forwards`)
+  * SADR bookkeeping that makes replies possible              → `sadr_rule`
+  * who hands the packet to its application                   → `local_delivery_iff`
+  * "The source address shown to a recipient names the originator's network and station"
+                                                              → `source_shown` (per hop),
+                                                                `tree_*_once` (end to end)
+  * "so forwarding terminates even if the topology contains a cycle"
+        → `forwarding_terminates`: `deliverAll` is a total function on EVERY topology — Lean
+          accepts its recursion with the hop count (`Npci.fuel`) as the decreasing measure,
+          and that is legitimate only because of `emitted_fuel` (= `hop_decrement` +
+          `hop_exhausted`); `forwarding_chain_bound`: no chain of forwardings is longer than
+          the hop count of the first frame (≤ 255).
+  * "a global broadcast reaches every station of every network … each recipient exactly once"
+        → `tree_global_broadcast_once`   (BacVerif/Lemmas/RouteTree.lean for the machinery)
+  * "a remote broadcast reaches every station of the target network", "a unicast reaches the
+    addressed station and nobody else's application"
+        → `tree_remote_broadcast_once`, `tree_unicast_once` (warm caches consistent with the tree)
+  * "so that a reply sent to it arrives at the originator"    → `reply_routable`
+  * "paths discovered on demand" (cold caches): modelled (`recv`, `originate`, the service
+    element handlers) and tied to the code by the lockstep and end-to-end streams; its global
+    correctness is NOT a theorem here (see notes/C06.md) — partial.
+
+  All per-hop theorems quantify over EVERY node (any number of adapters, any local adapter,
+  with or without application), every cache, every arrival adapter, link source/destination
+  and every decoded NPCI.  `recv_is_route` ties the pure decision `route` to the stateful
+  component `recv` that the lockstep correspondence runs against the real code.
+-/
 import BacVerif.Model.Route
 namespace BacVerif.C06
 open BacVerif BacVerif.Route
 
+/-! ## per-hop facts about the forwarding block -/
+
+theorem findPath_mem {c : Cache} {l : List Adapter} {dn : Nat} {a : Adapter} {m : Mac}
+    (h : findPath c l dn = some (a, m)) : a ∈ l ∧ c.get a.net dn = some m := by
+  induction l with
+  | nil => simp [findPath] at h
+  | cons x xs ih =>
+    simp only [findPath] at h
+    split at h
+    · rename_i m' hm
+      simp at h
+      obtain ⟨rfl, rfl⟩ := h
+      exact ⟨List.mem_cons_self, hm⟩
+    · obtain ⟨h1, h2⟩ := ih h
+      exact ⟨List.mem_cons_of_mem _ h1, h2⟩
+
+theorem mem_others {n : Node} {arr a : Adapter} (h : a ∈ n.others arr) :
+    a ∈ n.adapters ∧ a.aid ≠ arr.aid := by
+  simpa [Node.others] using h
+
+theorem byNet_mem {n : Node} {net : Option Nat} {x : Adapter} (h : n.byNet net = some x) :
+    x ∈ n.adapters ∧ x.net = net := by
+  unfold Node.byNet at h
+  exact ⟨List.mem_of_find?_eq_some h, by simpa using List.find?_some h⟩
+
+/-- what the forwarding block can emit: a copy (hop lowered by one, SADR set, DADR kept or —
+    on the last leg — removed) or a Who-Is-Router-To-Network -/
+def fwdCopy (p : Npci) (s : Nat × Mac) (keep : Bool) : Npci :=
+  { p with hop := p.hop - 1, sadr := some s, dadr := if keep then p.dadr else none }
+
+inductive FwdShape (arr : Adapter) (src : Mac) (p : Npci) : Out → Prop
+  | copy (a : Adapter) (l : Link) (s : Nat × Mac) (keep : Bool) :
+      a.aid ≠ arr.aid → fwdSadr arr src p = some s →
+      FwdShape arr src p (.send a l (fwdCopy p s keep))
+  | whoIs (a : Adapter) (dn : Nat) : a.aid ≠ arr.aid → FwdShape arr src p (.send a .bcast (whoIs dn))
+  | raised (k : Raised) : FwdShape arr src p (.raised k)
+
+theorem fwdRemote_shape (n : Node) (c : Cache) (arr : Adapter) (src : Mac) (p : Npci) (s : Nat × Mac)
+    (d : Dadr) (dn : Nat) (hs : fwdSadr arr src p = some s) (hd : p.dadr = some d) (o : Out)
+    (h : o ∈ fwdRemote n c arr { p with hop := p.hop - 1, sadr := some s } d dn) :
+    FwdShape arr src p o := by
+  unfold fwdRemote at h
+  split at h
+  · rename_i x hx
+    split at h
+    · simp at h
+    · rename_i hne
+      simp only [List.mem_singleton] at h
+      subst h
+      have := FwdShape.copy (p := p) x (lastLeg d) s false (by simpa using hne) hs
+      simpa [fwdCopy] using this
+  · split at h
+    · rename_i a m hf
+      simp only [List.mem_singleton] at h
+      subst h
+      have hm := (mem_others (findPath_mem hf).1).2
+      have := FwdShape.copy (p := p) a (.to m) s true hm hs
+      simpa [fwdCopy, hd] using this
+    · simp only [List.mem_map] at h
+      obtain ⟨a, ha, rfl⟩ := h
+      exact .whoIs a dn (mem_others ha).2
+
+theorem forward_shape (n : Node) (c : Cache) (arr : Adapter) (src : Mac) (p : Npci) (o : Out)
+    (h : o ∈ forward n c arr src p) :
+    FwdShape arr src p o ∧ p.dadr.isSome ∧ p.hop ≠ 0 ∧ n.adapters.length ≠ 1 := by
+  unfold forward at h
+  split at h
+  · simp at h
+  rename_i hlen
+  split at h
+  · simp at h
+  rename_i hhop
+  split at h
+  · simp at h
+  rename_i d hd
+  refine ⟨?_, by simp [hd], by simpa using hhop, by simpa using hlen⟩
+  split at h
+  · simp at h; subst h; exact .raised _
+  rename_i s hs
+  cases d with
+  | gb =>
+    simp only [fwdCopies, List.mem_map] at h
+    obtain ⟨a, ha, rfl⟩ := h
+    have := FwdShape.copy (p := p) a .bcast s true (mem_others ha).2 hs
+    simpa [fwdCopy, hd] using this
+  | rs dn m => exact fwdRemote_shape n c arr src p s _ dn hs hd o h
+  | rb dn => exact fwdRemote_shape n c arr src p s _ dn hs hd o h
+
+
+
+theorem sends_shape {n : Node} {c : Cache} {arr : Adapter} {src : Mac} {dst : Link} {p : Npci}
+    {a : Adapter} {l : Link} {q : Npci} (h : (a, l, q) ∈ (route n c arr src dst p).sends) :
+    FwdShape arr src p (.send a l q) ∧ p.dadr.isSome ∧ p.hop ≠ 0 ∧ n.adapters.length ≠ 1 := by
+  simp only [Decision.sends, List.mem_filterMap] at h
+  obtain ⟨o, ho, hx⟩ := h
+  cases o with
+  | send v l' q' =>
+    simp at hx
+    obtain ⟨rfl, rfl, rfl⟩ := hx
+    exact forward_shape _ _ _ _ _ _ (route_out_forward _ _ _ _ _ _ _ _ _ ho)
+  | up u => simp at hx
+  | raised k => simp at hx
+
+/-- **no_echo** — nothing is ever sent on the adapter the frame arrived on -/
+theorem no_echo (n : Node) (c : Cache) (arr : Adapter) (src : Mac) (dst : Link) (p : Npci)
+    (a : Adapter) (l : Link) (q : Npci) (h : (a, l, q) ∈ (route n c arr src dst p).sends) :
+    a.aid ≠ arr.aid := by
+  have := (sends_shape h).1
+  cases this <;> assumption
+
+/-- **hop_decrement** — every copy sent on has `hop' + 1 = hop` (the only other frame a hop can
+    emit is a Who-Is-Router-To-Network, which carries no DADR and is never forwarded) -/
+theorem hop_decrement (n : Node) (c : Cache) (arr : Adapter) (src : Mac) (dst : Link) (p : Npci)
+    (a : Adapter) (l : Link) (q : Npci) (h : (a, l, q) ∈ (route n c arr src dst p).sends) :
+    (q.hop + 1 = p.hop ∧ q.msg = p.msg ∧ q.data = p.data ∧ (q.dadr = p.dadr ∨ q.dadr = none))
+    ∨ (∃ dn, q = whoIs dn ∧ l = .bcast) := by
+  obtain ⟨hs, _, hh, _⟩ := sends_shape h
+  cases hs with
+  | copy a l s keep _ _ =>
+    left
+    refine ⟨by simp [fwdCopy]; omega, rfl, rfl, ?_⟩
+    cases keep <;> simp [fwdCopy]
+  | whoIs a dn _ => right; exact ⟨dn, rfl, rfl⟩
+
+/-- … and nothing at all is sent once the count is exhausted -/
+theorem hop_exhausted (n : Node) (c : Cache) (arr : Adapter) (src : Mac) (dst : Link) (p : Npci)
+    (h0 : p.hop = 0) : (route n c arr src dst p).sends = [] := by
+  apply List.eq_nil_iff_forall_not_mem.mpr
+  intro ⟨a, l, q⟩ h
+  exact (sends_shape h).2.2.1 h0
+
+/-- **local_stays_local** — a frame without DADR (local station / local broadcast traffic) is
+    never forwarded, whatever the node, cache and message -/
+theorem local_stays_local (n : Node) (c : Cache) (arr : Adapter) (src : Mac) (dst : Link) (p : Npci)
+    (h0 : p.dadr = none) : (route n c arr src dst p).sends = [] := by
+  apply List.eq_nil_iff_forall_not_mem.mpr
+  intro ⟨a, l, q⟩ h
+  have := (sends_shape h).2.1
+  simp [h0] at this
+
+/-- a node with a single adapter never forwards -/
+theorem station_never_forwards (n : Node) (c : Cache) (arr : Adapter) (src : Mac) (dst : Link) (p : Npci)
+    (h1 : n.adapters.length = 1) : (route n c arr src dst p).sends = [] := by
+  apply List.eq_nil_iff_forall_not_mem.mpr
+  intro ⟨a, l, q⟩ h
+  exact (sends_shape h).2.2.2 h1
+
+/-- **sadr_rule** — the SADR of a forwarded copy is the inbound SADR if there is one, else
+    (number of the arrival network, link source) -/
+theorem sadr_rule (n : Node) (c : Cache) (arr : Adapter) (src : Mac) (dst : Link) (p : Npci)
+    (a : Adapter) (l : Link) (q : Npci) (h : (a, l, q) ∈ (route n c arr src dst p).sends)
+    (hcopy : ∀ dn, q ≠ whoIs dn) :
+    match p.sadr with
+    | some s => q.sadr = some s
+    | none => ∃ an, arr.net = some an ∧ q.sadr = some (an, src) := by
+  obtain ⟨hs, _, _, _⟩ := sends_shape h
+  cases hs with
+  | copy a l s keep _ hsadr =>
+    unfold fwdSadr at hsadr
+    split at hsadr
+    · rename_i s' hs'
+      simp at hsadr; subst hsadr
+      simp [hs', fwdCopy]
+    · rename_i hs'
+      simp only [hs']
+      cases hn : arr.net with
+      | none => simp [hn] at hsadr
+      | some an =>
+        simp [hn] at hsadr; subst hsadr
+        exact ⟨an, rfl, by simp [fwdCopy]⟩
+  | whoIs a dn _ => exact absurd rfl (hcopy dn)
+
+
+/-- the property's reading of "this frame is addressed to the application of this node" -/
+def addressedHere (loc arr : Adapter) (p : Npci) : Prop :=
+  match p.dadr with
+  | none => arr.aid = loc.aid                                   -- no DADR: on the local adapter only
+  | some .gb => True                                            -- global broadcast
+  | some (.rb d) => some d ≠ arr.net ∧ some d = loc.net         -- remote broadcast for the local net
+  | some (.rs d m) => some d ≠ arr.net ∧ some d = loc.net ∧ loc.addr = some m
+
+instance (loc arr : Adapter) (p : Npci) : Decidable (addressedHere loc arr p) := by
+  unfold addressedHere; split <;> exact inferInstance
+
+/-- "it needs to look routed" -/
+def lifted (n : Node) (loc arr : Adapter) : Prop := n.adapters.length > 1 ∧ arr.aid ≠ loc.aid
+
+instance (n : Node) (loc arr : Adapter) : Decidable (lifted n loc arr) := by
+  unfold lifted; exact inferInstance
+
+/-- the one way local delivery can fail although the frame is addressed here:
+    `RemoteStation(adapter.adapterNet, …)` with an unknown arrival network number -/
+def sourceNameable (n : Node) (loc arr : Adapter) (p : Npci) : Prop :=
+  ¬ (lifted n loc arr ∧ p.sadr = none ∧ arr.net = none)
+
+instance (n : Node) (loc arr : Adapter) (p : Npci) : Decidable (sourceNameable n loc arr p) := by
+  unfold sourceNameable; exact inferInstance
+
+theorem classify_go {loc arr : Adapter} {p : Npci} :
+    (∃ fm, classify loc arr p = .go true fm) ↔ (addressedHere loc arr p ∨ (p.dadr = none ∧ p.msg.isSome)) := by
+  unfold classify addressedHere
+  cases hd : p.dadr with
+  | none => simp
+  | some d =>
+    cases d with
+    | gb => simp
+    | rb d =>
+      by_cases h1 : some d = arr.net <;> simp [h1]
+    | rs d m =>
+      by_cases h1 : some d = arr.net <;> simp [h1]
+      by_cases h2 : some d = loc.net <;> simp [h2]
+      cases ha : loc.addr with
+      | none => simp
+      | some a => simp; exact ⟨fun h => h.symm, fun h => h.symm⟩
+
+theorem shown_ok {n : Node} {loc arr : Adapter} {src : Mac} {dst : Link} {p : Npci} :
+    (∃ u, shown n loc arr src dst p = .ok u) ↔ sourceNameable n loc arr p := by
+  unfold shown sourceNameable lifted
+  by_cases hl : n.adapters.length > 1 ∧ arr.aid ≠ loc.aid
+  · have : (decide (n.adapters.length > 1) && (arr.aid != loc.aid)) = true := by simpa using hl
+    simp only [this, if_true]
+    cases hs : p.sadr with
+    | some s => simp
+    | none =>
+      cases hn : arr.net with
+      | none => simp [hl]
+      | some an => simp
+  · have : (decide (n.adapters.length > 1) && (arr.aid != loc.aid)) = false := by
+      simpa [Bool.and_eq_false_iff] using hl
+    simp [this, hl]
+
+theorem route_up {n : Node} {c : Cache} {arr : Adapter} {src : Mac} {dst : Link} {p : Npci}
+    {loc : Adapter} (hloc : n.loc = some loc) (u : Up) :
+    (route n c arr src dst p).up = some u ↔
+      (spoofed n p = false ∧ (∃ fm, classify loc arr p = .go true fm) ∧ p.msg = none ∧ n.hasApp = true
+        ∧ shown n loc arr src dst p = .ok u) := by
+  unfold route
+  simp only [hloc]
+  by_cases hsp : spoofed n p = true
+  · simp [hsp]
+  · simp only [hsp]
+    cases hc : classify loc arr p with
+    | drop k => simp
+    | raised k => simp
+    | go pl fm =>
+      unfold routeGo
+      cases hm : p.msg with
+      | some t =>
+        simp only []
+        repeat' split
+        all_goals simp
+      | none =>
+        cases pl <;> cases hh : n.hasApp <;> simp
+        cases hsh : shown n loc arr src dst p <;> simp
+
+/-- **local_delivery_iff** — the application of a node is handed the packet iff it has one, the
+    packet is an application-layer message that does not claim to come from one of the node's own
+    networks, and it is addressed here: global broadcast, remote broadcast for the local network,
+    remote station with the local network and MAC, or no DADR on the local adapter -/
+theorem local_delivery_iff (n : Node) (c : Cache) (arr : Adapter) (src : Mac) (dst : Link) (p : Npci)
+    (loc : Adapter) (hloc : n.loc = some loc) (hname : sourceNameable n loc arr p) :
+    (route n c arr src dst p).up.isSome ↔
+      (n.hasApp = true ∧ p.msg = none ∧ spoofed n p = false ∧ addressedHere loc arr p) := by
+  obtain ⟨u0, hu0⟩ := shown_ok.mpr hname
+  constructor
+  · intro h
+    obtain ⟨u, hu⟩ := Option.isSome_iff_exists.mp h
+    obtain ⟨h1, h2, h3, h4, _⟩ := (route_up hloc u).mp hu
+    refine ⟨h4, h3, h1, ?_⟩
+    rcases classify_go.mp h2 with h | ⟨_, h⟩
+    · exact h
+    · simp [h3] at h
+  · intro ⟨h1, h2, h3, h4⟩
+    apply Option.isSome_iff_exists.mpr
+    exact ⟨u0, (route_up hloc u0).mpr ⟨h3, classify_go.mpr (Or.inl h4), h2, h1, hu0⟩⟩
+
+/-- **source_shown** — the source handed upward is the SADR if the frame has one, else the link
+    source — as a remote station of the arrival network on a multi-adapter node when the frame
+    did not arrive on the local adapter; payload, priority and expecting-reply are unchanged; a
+    global broadcast is shown as such -/
+theorem source_shown (n : Node) (c : Cache) (arr : Adapter) (src : Mac) (dst : Link) (p : Npci)
+    (loc : Adapter) (hloc : n.loc = some loc) (u : Up) (h : (route n c arr src dst p).up = some u) :
+    (match p.sadr with
+     | some (sn, sm) => u.src = .remoteStation sn sm
+     | none => if lifted n loc arr then ∃ an, arr.net = some an ∧ u.src = .remoteStation an src
+               else u.src = .localStation src)
+    ∧ u.data = p.data ∧ u.er = p.er ∧ u.prio = p.prio
+    ∧ (p.dadr = some .gb → u.dst = some .global) := by
+  obtain ⟨_, _, _, _, hs⟩ := (route_up hloc u).mp h
+  unfold shown at hs
+  by_cases hl : lifted n loc arr
+  · have : (decide (n.adapters.length > 1) && (arr.aid != loc.aid)) = true := by
+      simpa [lifted] using hl
+    simp only [this, if_true] at hs
+    cases hsa : p.sadr with
+    | some s =>
+      simp only [hsa] at hs
+      injection hs with hs; subst hs
+      refine ⟨rfl, rfl, rfl, rfl, ?_⟩
+      intro hd; simp [hd]
+    | none =>
+      simp only [hsa] at hs
+      cases hn : arr.net with
+      | none => simp [hn] at hs
+      | some an =>
+        simp only [hn] at hs
+        injection hs with hs; subst hs
+        refine ⟨?_, rfl, rfl, rfl, ?_⟩
+        · simp [hl]
+        · intro hd; simp [hd]
+  · have : (decide (n.adapters.length > 1) && (arr.aid != loc.aid)) = false := by
+      simpa [lifted, Bool.and_eq_false_iff] using hl
+    simp only [this] at hs
+    simp at hs
+    subst hs
+    refine ⟨?_, rfl, rfl, rfl, ?_⟩
+    · cases hsa : p.sadr with
+      | some s => simp
+      | none => simp [hl]
+    · intro hd; simp [hd]
+
+
+/-- the observable effect of a decision -/
+def Decision.outs (d : Decision) : List Out := (d.up.map Out.up).toList ++ d.out
+
+/-- **recv_is_route** — for application-layer frames the stateful component (what the lockstep
+    correspondence runs against the real `NetworkServiceAccessPoint`) does exactly what the pure
+    decision says; the only state change is the learned path -/
+theorem recv_is_route (s : St) (arr : Adapter) (src : Mac) (dst : Link) (p : Npci)
+    (hmsg : p.msg = none) (hne : s.node.adapters ≠ []) :
+    (recv s arr src dst p).2 = Decision.outs (route s.node s.cache arr src dst p)
+    ∧ ((recv s arr src dst p).1 = s ∨
+       (recv s arr src dst p).1 = { s with cache := learned s.cache arr src p }) := by
+  unfold recv route
+  have : s.node.adapters.isEmpty = false := by
+    cases h : s.node.adapters with
+    | nil => exact absurd h hne
+    | cons _ _ => rfl
+  simp only [this]
+  cases hloc : s.node.loc with
+  | none => simp [Decision.outs]
+  | some loc =>
+    simp only []
+    by_cases hsp : spoofed s.node p = true
+    · simp [hsp, Decision.outs]
+    · simp only [hsp]
+      cases hc : classify loc arr p with
+      | drop k => simp [Decision.outs]
+      | raised k => simp [Decision.outs]
+      | go pl fm =>
+        unfold routeGo
+        simp only [hmsg]
+        cases pl <;> cases hh : s.node.hasApp <;> simp [Decision.outs, hasRaised]
+        cases hsh : shown s.node loc arr src dst p <;> simp
+
+
+/-! ## termination on every topology -/
+
+/-- a chain of `k` successive forwardings in an arbitrary internetwork, starting with frame `f` -/
+inductive Chain (topo : Topology) : Packet → Nat → Prop
+  | done (f : Packet) : Chain topo f 0
+  | step (f g : Packet) (t : TNode) (a : Adapter) (k : Nat) :
+      t ∈ topo → a ∈ t.node.adapters → hears f a = true → g ∈ emitted t a f →
+      Chain topo g k → Chain topo f (k + 1)
+
+/-- **forwarding_chain_bound** — on every topology (cycles included, any caches) a frame is
+    forwarded through at most `hop count` generations: at most 255 -/
+theorem forwarding_chain_bound (topo : Topology) (f : Packet) (k : Nat) (h : Chain topo f k) :
+    k ≤ f.npci.fuel ∧ f.npci.fuel ≤ f.npci.hop := by
+  induction h with
+  | done f => exact ⟨Nat.zero_le _, by unfold Npci.fuel; split <;> omega⟩
+  | step f g t a k _ _ _ hg _ ih =>
+    have := emitted_fuel t a f g hg
+    refine ⟨by omega, by unfold Npci.fuel; split <;> omega⟩
+
+/-- **forwarding_terminates** — the global simulator is a total function on every topology:
+    this is its defining equation, which Lean accepted with `Npci.fuel` (the hop count) as the
+    decreasing measure (`Route.deliverAll`, `decreasing_by emitted_fuel`) -/
+theorem forwarding_terminates (topo : Topology) (f : Packet) :
+    deliverAll topo f = topo.flatMap fun t =>
+      (t.node.adapters.filter (hears f)).flatMap fun a =>
+        delivered t a f ++ (emitted t a f).flatMap (fun g => deliverAll topo g) :=
+  deliverAll_eq topo f
+
+/-- the measure really is the hop count: a forwarded frame has a strictly smaller one -/
 theorem hop_measure (t : TNode) (a : Adapter) (f g : Packet) (h : g ∈ emitted t a f) :
     g.npci.fuel < f.npci.fuel := emitted_fuel t a f g h
+
 
 end BacVerif.C06
